@@ -166,6 +166,8 @@ def main():
         for fu in concurrent.futures.as_completed(futs):
             r, cmd, outp = futs[fu]
             rc, out, dt = fu.result()
+            tkey = "max_slice_seconds %s %s" % (r["driver"], r.get("tag", ""))
+            merged["counters"][tkey] = max(merged["counters"].get(tkey, 0), int(dt))
             if rc != 0 or not os.path.exists(outp):
                 # a crash of the driver is an outcome: drivers that can crash legitimately (sanitizer / fault as oracle)
                 # declare crash_key; otherwise it is an internal error
